@@ -227,6 +227,31 @@ class StoreProfile(Profile):
 # ---------------------------------------------------------------------------------------------
 # search family (DESIGN 4)
 
+SEPARATORS = ["_", "-", ".", "+"]
+
+
+def typed_prefixes(m, ents):
+    """Typed prefixes of the entities that are not entities themselves (levels without a path, e.g. the
+    constant-backed state level): bases for searches at those levels."""
+    have = set(ents)
+    out = set()
+    for e in ents:
+        segs = e.split("/")
+        for k in range(1, len(segs)):
+            p = "/".join(segs[:k])
+            if p not in have and m.natural_type(p):
+                out.add(p)
+    return sorted(out)
+
+
+def _file_name_only(m, tn, key):
+    pt = m.path[m.default_config]["by_type"].get(tn)
+    if pt is None:
+        return False
+    head, _, tail = pt.template.rpartition("/")
+    return ("{" + key) in tail and ("{" + key) not in head
+
+
 def near_miss(rng, m, ents):
     """A Sid string that does not exist but whose value at one free-form position is an existing value cut at
     the filename separator ('x_y' -> 'x'): file-name globbing must not confuse the two. Returns (base, index)."""
@@ -236,13 +261,20 @@ def near_miss(rng, m, ents):
         if not tn:
             continue
         for i, seg in enumerate(e.split("/")):
-            if "_" in seg.strip("_") and m.vocab(tn, m.by_name[tn].keys[i])[0] == "free":
-                cands.append((e, i))
+            if m.vocab(tn, m.by_name[tn].keys[i])[0] != "free":
+                continue
+            for sep in SEPARATORS:      # the file-name separator of the configuration is one of these
+                if sep in seg.strip(sep):
+                    cands.append((e, i, sep))
+                    # a field that only occurs in the file name (no folder anchors it) is where globbing can confuse
+                    # two values: weighted up
+                    if _file_name_only(m, tn, m.by_name[tn].keys[i]):
+                        cands += [(e, i, sep)] * 4
     if not cands:
         return None, None
-    e, i = rng.choice(sorted(cands))
+    e, i, sep = rng.choice(sorted(cands))
     segs = e.split("/")
-    segs[i] = segs[i].rsplit("_", 1)[0]
+    segs[i] = segs[i].rsplit(sep, 1)[0]
     base = "/".join(segs)
     if m.natural_type(base) != m.natural_type(e):
         return None, None
@@ -265,10 +297,11 @@ def gen_search(rng, m, vocab, base, simple=False, allow_last=False, allow_filter
         if r < p_star:
             out[i] = "*"
             feats.add("star")
-        elif (not simple and "_" in segs[i].strip("_") and rng.random() < 0.3
+        elif (not simple and any(sp in segs[i].strip(sp) for sp in SEPARATORS) and rng.random() < 0.3
               and m.vocab(tn, t.keys[i])[0] == "free"):
-            # near-miss pair: the value and the value cut at the filename separator, in either order
-            pair = [segs[i], segs[i].rsplit("_", 1)[0]]
+            # near-miss pair: the value and the value cut at a filename separator, in either order
+            sp = [x for x in SEPARATORS if x in segs[i].strip(x)][0]
+            pair = [segs[i], segs[i].rsplit(sp, 1)[0]]
             rng.shuffle(pair)
             out[i] = ",".join(pair)
             feats.add("comma_near_miss")
